@@ -1669,3 +1669,19 @@ def _clipped_polyline_instance(repo, ob, failure):
 
 GENERATORS.insert(0, ("C18.place.shape_moved", _clipped_polyline_instance))
 GENERATORS.insert(0, ("C11.place.shape_moved", _clipped_polyline_instance))
+
+
+def _radius_spellings_beside(repo, ob, failure):
+    """every radius spelling Position accepts (circle rxy / rx ry, ellipse r) gives the element the same own size for |h |v placement"""
+    import re as _re
+    pairs = [('<circle xy="#a|h 2" rxy="5"/>', '<circle xy="#a|h 2" r="5"/>'), ('<ellipse xy="#a|h 2" r="5"/>', '<ellipse xy="#a|h 2" rxy="5"/>')]
+    for a, b in pairs:
+        ra = run_svgdx(repo, '<svg><rect id="a" wh="10"/>%s</svg>' % a, args=("--no-auto-styles",))
+        rb = run_svgdx(repo, '<svg><rect id="a" wh="10"/>%s</svg>' % b, args=("--no-auto-styles",))
+        if ra["rc"] == 0 and rb["rc"] == 0 and ra["out"] != rb["out"]:
+            return {"input": '<svg><rect id="a" wh="10"/>%s</svg>' % a, "args": ["--no-auto-styles"], "observed": ra["out"].strip()[-90:], "expected": "as %s: %s" % (b, rb["out"].strip()[-90:])}
+    return None
+
+
+GENERATORS.insert(0, ("C09.size.radius", _radius_spellings_beside))
+GENERATORS.insert(0, ("C11.size.radius", _radius_spellings_beside))
